@@ -114,7 +114,7 @@ func (n *VariableDeclarationNode) String() string {
 
 	if n.Initialiser != nil {
 		buff.WriteString(" = ")
-		buff.WriteString(n.Initialiser.String())
+		writeExpressionWithoutModifier(&buff, n.Initialiser)
 	}
 
 	return buff.String()
